@@ -467,7 +467,9 @@ def region_compare(outlines, pieces, rnd, samples=200):
         return 'no polygons re-loaded for %d outline(s) that exceed the vertex limit or come from a path' % len(outlines)
     a_exp = sum(abs(shoelace2(o)) for o in outlines)
     a_got = sum(abs(shoelace2(p)) for p in pieces)
-    slack = 2 * sum(perimeter(o) for o in outlines) + 2 * sum(perimeter(p) for p in pieces) * 0  # twice-area units: perimeter x 1 grid x 2
+    # twice-area units. Both roundings move a vertex by at most half a grid unit, in the worst case (all coordinates on half-grid ties, e.g. a path of
+    # odd width) in opposite directions: every edge shifts by up to one unit (perimeter x 1) and every corner adds up to one unit square
+    slack = 2 * sum(perimeter(o) for o in outlines) + 2 * sum(len(o) for o in outlines)
     if abs(a_exp - a_got) > slack + 4:
         return 'area of re-loaded pieces %s/2, area of original %s/2 (slack %s/2)' % (a_got, a_exp, int(slack))
     if rnd is None:
